@@ -95,8 +95,19 @@ def _worker(args):
         t_case = time.time()
         try:
             failure = _run_one(mod, case)
-        except Exception:
-            return {'crash': traceback.format_exc(), 'case': common.jsonable(case)}
+        except Exception as e:
+            # an exception escaping a case (never seen on the unchanged tree: the case modules catch what the code may raise) is a
+            # failure of that case, with the input at hand - not a crash of the machinery.  Formatting is defensive: exception
+            # classes of the code under check may misbehave in getattr (RadiDictKeyError.__getattr__ raises KeyError)
+            try:
+                text = traceback.format_exc()[-1500:]
+            except BaseException:
+                text = f'{type(e).__name__} (traceback could not be formatted)'
+            try:
+                msg = str(e)[:300]
+            except BaseException:
+                msg = '?'
+            failure = common.fail('E.exception_escaped_the_case', exception=type(e).__name__, message=msg, traceback=text)
         if time.time() - t_case >= CASE_TIMEOUT_S and (failure is None or failure.get('clause') != 'hang'):
             # the alarm fired but was swallowed somewhere (e.g. by an `except BaseException` of the case's handler)
             failure = common.fail('hang', detail=f'case needed {time.time() - t_case:.0f}s (limit {CASE_TIMEOUT_S}s)',
